@@ -434,7 +434,7 @@ func runCases(ctx *Ctx, cases []Case, par int) {
 	for _, ev := range aliasEvents {
 		c := Case{Op: "(unknown)", Tag: "aliasing"}
 		for i := range cases {
-			if impl[i].out == "ok "+ev.hexv {
+			if impl[i].out == "ok "+ev.hexv || strings.HasPrefix(impl[i].out, "ok "+ev.hexv+" ") {
 				c = cases[i]
 				break
 			}
